@@ -50,24 +50,26 @@ void gridNew(const json &in, json &out) {
 
 template <typename T>
 void gridFind(const json &in, json &out) {
-  const Grid<T> g = mkGrid<T>(in.at("g"));
+  VH_OPERAND Grid<T> g = mkGrid<T>(in.at("g"));
   const T x = Codec<T>::dec(in.at("x"));
   out["g"] = projGrid(g);
   idxOutcome(out, "find", [&] { return g.findElement(x); });
+  out["g_after"] = projGrid(g);
 }
 
 template <typename T>
 void gridAt(const json &in, json &out) {
-  const Grid<T> g = mkGrid<T>(in.at("g"));
+  VH_OPERAND Grid<T> g = mkGrid<T>(in.at("g"));
   const size_t i = realIndex(in);
   out["g"] = projGrid(g);
   ratOutcome<T>(out, "at", [&] { return g.at(i); });
   if (i < g.size()) out["sub_v"] = Codec<T>::enc(g[i]);  // unchecked accessor, in range only
+  out["g_after"] = projGrid(g);
 }
 
 template <typename T>
 void supNew(const json &in, json &out) {
-  const Grid<T> g = mkGrid<T>(in.at("g"));
+  VH_OPERAND Grid<T> g = mkGrid<T>(in.at("g"));
   const size_t s = bound(in, "s", "stop"), e = bound(in, "e", "etop");
   std::optional<Support<T>> S;
   if (guarded(out, "out", [&] { S.emplace(g, s, e); })) out["res"] = projSupport(*S);
@@ -76,12 +78,13 @@ void supNew(const json &in, json &out) {
   const auto W = Support<T>::createWholeGrid(g);
   out["mkempty"] = projSupport(E);
   out["mkwhole"] = projSupport(W);
+  out["g_after"] = projGrid(g);
 }
 
 template <typename T>
 void supRead(const json &in, json &out) {
-  const Grid<T> g = mkGrid<T>(in.at("a").at("g"));
-  const Support<T> S = mkSupport<T>(in.at("a"), g);
+  VH_OPERAND Grid<T> g = mkGrid<T>(in.at("a").at("g"));
+  VH_OPERAND Support<T> S = mkSupport<T>(in.at("a"), g);
   out["a"] = projSupport(S);
   out["size"] = idx(S.size());
   out["empty"] = S.empty() ? 1 : 0;
@@ -99,12 +102,13 @@ void supRead(const json &in, json &out) {
   out["grid_eq"] = (S.getGrid() == g) ? 1 : 0;
   out["grid_shared"] = (S.getGrid().getData().get() == g.getData().get()) ? 1 : 0;
   out["self_eq"] = (S == S && !(S != S)) ? 1 : 0;
+  out["a_after"] = projSupport(S);
 }
 
 template <typename T>
 void supIdx(const json &in, json &out) {
-  const Grid<T> g = mkGrid<T>(in.at("a").at("g"));
-  const Support<T> S = mkSupport<T>(in.at("a"), g);
+  VH_OPERAND Grid<T> g = mkGrid<T>(in.at("a").at("g"));
+  VH_OPERAND Support<T> S = mkSupport<T>(in.at("a"), g);
   const size_t i = realIndex(in);
   out["a"] = projSupport(S);
   out["rel"] = optIdx(S.relativeFromAbsolute(i));
@@ -112,15 +116,16 @@ void supIdx(const json &in, json &out) {
   idxOutcome(out, "abs", [&] { return S.absoluteFromRelative(i); });
   ratOutcome<T>(out, "at", [&] { return S.at(i); });
   if (i < S.size()) out["sub_v"] = Codec<T>::enc(S[i]);
+  out["a_after"] = projSupport(S);
 }
 
 template <typename T>
 void supBin(const json &in, json &out) {
-  const Grid<T> ga = mkGrid<T>(in.at("a").at("g"));
+  VH_OPERAND Grid<T> ga = mkGrid<T>(in.at("a").at("g"));
   const bool share = in.value("share", 0) != 0;
-  const Grid<T> gb = share ? ga : mkGrid<T>(in.at("b").at("g"));
-  const Support<T> A = mkSupport<T>(in.at("a"), ga);
-  const Support<T> B = mkSupport<T>(in.at("b"), gb);
+  VH_OPERAND Grid<T> gb = share ? ga : mkGrid<T>(in.at("b").at("g"));
+  VH_OPERAND Support<T> A = mkSupport<T>(in.at("a"), ga);
+  VH_OPERAND Support<T> B = mkSupport<T>(in.at("b"), gb);
   out["a"] = projSupport(A);
   out["b"] = projSupport(B);
   std::optional<Support<T>> U, X;
@@ -136,9 +141,9 @@ void supBin(const json &in, json &out) {
 
 template <typename T>
 void supTri(const json &in, json &out) {
-  const Grid<T> g = mkGrid<T>(in.at("a").at("g"));
-  const Support<T> A = mkSupport<T>(in.at("a"), g), B = mkSupport<T>(in.at("b"), g),
-                   C = mkSupport<T>(in.at("c"), g);
+  VH_OPERAND Grid<T> g = mkGrid<T>(in.at("a").at("g"));
+  VH_OPERAND Support<T> A = mkSupport<T>(in.at("a"), g), B = mkSupport<T>(in.at("b"), g),
+                        C = mkSupport<T>(in.at("c"), g);
   out["a"] = projSupport(A);
   out["b"] = projSupport(B);
   out["c"] = projSupport(C);
@@ -146,6 +151,9 @@ void supTri(const json &in, json &out) {
   out["u_r"] = projSupport(A.calcUnion(B.calcUnion(C)));
   out["i_l"] = projSupport(A.calcIntersection(B).calcIntersection(C));
   out["i_r"] = projSupport(A.calcIntersection(B.calcIntersection(C)));
+  out["a_after"] = projSupport(A);
+  out["b_after"] = projSupport(B);
+  out["c_after"] = projSupport(C);
 }
 
 #ifndef VH_SCALAR
